@@ -1987,7 +1987,7 @@ PROPS["C03"]["rule"] += (" Tag serp / disp 'deep' (c03::deep): depth x indent - 
                          "either outermost) around an innermost container of one or two scalars, every third one with a second scalar element after the nested one in each "
                          "wrapper, serialised compact and pretty with every indent of INDENTS plus four blanks, eight blanks, two tabs (every depth) and 33 blanks (depths 1-3, "
                          "around every multiple of 16, the deepest), per-write buffers at every eighth depth, and the corresponding Value through {} / {:#} / to_string / "
-                         "to_string_pretty (op disp); quick tier: one innermost size per (depth, shape).")
+                         "to_string_pretty (op disp); quick tier and depths beyond 44: one innermost size per (depth, shape), the fourth shape at every fourth depth.")
 DEPTH_LINES_RULE = (" Tag depth-lines / depth-lines-open / depth-lines-cut / depth-lines-str (c01::depth_lines): nests of 127 / 128 / 129 / 140 containers - arrays only, objects only, "
                     "alternating with either kind outermost, arrays with a BRACE as 128th opener, objects with a BRACKET as 128th opener - with five kinds of gap (none, newline, "
                     "blank, CR LF, newline + blanks; in objects also before the key, the colon and the value) between the levels; complete, unclosed, cut directly after the 128th "
